@@ -19,6 +19,12 @@ pub fn bin_sym(o: &str) -> &'static str {
     }
 }
 
+/// a record key: bare when it is a plain name, quoted otherwise
+fn key_src(k: &str) -> String {
+    let plain = !k.is_empty() && k.chars().all(|c| c.is_ascii_alphanumeric() || c == '_') && !k.chars().next().unwrap().is_ascii_digit();
+    if plain { k.to_string() } else { crate::mv::str_src(k) }
+}
+
 pub fn param(p: &J) -> String {
     let n = p["n"].as_str().unwrap();
     match p["m"].as_str().unwrap() { "req" => n.to_string(), "opt" => format!("{n}?"), "rest" => format!("...{n}"), m => panic!("param mode {m}") }
@@ -48,7 +54,7 @@ pub fn render(e: &J) -> String {
         "dot" => format!("{}.{}", wrap(&e["e"]), crate::mv::cs_to_string(&e["f"])),
         "spread" => format!("...{}", wrap(&e["e"])),
         "rec" => format!("{{{}}}", e["es"].as_array().unwrap().iter().map(|x| match x["m"].as_str().unwrap() {
-            "static" => format!("{}: {}", crate::mv::cs_to_string(&x["key"]), render(&x["e"])),
+            "static" => format!("{}: {}", key_src(&crate::mv::cs_to_string(&x["key"])), render(&x["e"])),
             "short" => x["n"].as_str().unwrap().to_string(),
             "spread" => format!("...{}", wrap(&x["e"])),
             "dyn" => format!("[{}]: {}", render(&x["ke"]), render(&x["e"])),
